@@ -669,4 +669,54 @@ def c08(res, scenario) -> list[Violation]:
     return out
 
 
-ALL = {"C08": c08, "C01": c01, "C02": c02, "C03": c03, "C04": c04, "C09": c09, "C17": c17}
+def c16(res, scenario) -> list[Violation]:
+    """Fixed-interval interaction inside launch(): consecutive steps start at least interval - offset
+    apart in system time - measured on a clock of the monitor's own: virtual real time x time scale,
+    standing still between the control thread's time.pause() and time.resume()."""
+    out: list[Violation] = []
+    iv = scenario.get("fixed_interval")
+    if not iv or not res.times:
+        return out
+    case = case_of(res, scenario)
+    w = float(iv) - float(scenario.get("interval_offset", 0.0))
+    scale, paused, sys_t, last = 1.0, False, 0.0, res.times[0]
+    starts: list[tuple[float, int, bool]] = []
+    ends: list[tuple[float, int]] = []        # the loop delay that follows each step's interval adjustment
+    stepped = False
+    for i, (th, kind, obj, val) in enumerate(res.events):
+        t = res.times[i]
+        if not paused:
+            sys_t += (t - last) * scale
+        last = t
+        if th == "control" and kind == "clock_pause":
+            paused = True
+        elif th == "control" and kind == "clock_resume":
+            paused = False
+        elif kind == "clock_set_time_scale" and val:
+            scale = float(val)
+        elif th == "inference" and kind == "cb_begin" and obj == "env.observe":
+            starts.append((sys_t, i, paused))
+            stepped = True
+        elif th == "inference" and kind == "loop_sleep" and stepped:
+            ends.append((sys_t, i))
+            stepped = False
+    for (_a, _i, _pa), (b, j, pb) in zip(starts, starts[1:]):
+        if pb:
+            out.append(Violation("c16:step-while-clock-frozen",
+                                 f"a step started (event {j}) while the system clock was frozen by a pause: "
+                                 f"steps are not paced while the clock stands still", case))
+            return out
+    # The adjustor paces the *step boundaries* (the instants at which adjust() returns, observed one loop
+    # delay later): consecutive boundaries are at least interval - offset apart in system time. Step
+    # starts follow their boundary by the loop overhead (the loop guard, after a pause also the resume
+    # hooks), which the property's wording leaves out (DESIGN 7.16: "up to the overhead terms").
+    for (a, i), (b, j) in zip(ends, ends[1:]):
+        if b - a < w - 1e-6:
+            out.append(Violation("c16:gap",
+                                 f"two consecutive step boundaries are {b - a:.6g} s apart in system time "
+                                 f"(events {i}, {j}), less than interval - offset = {w:.6g} s", case))
+            break
+    return out
+
+
+ALL = {"C16": c16, "C08": c08, "C01": c01, "C02": c02, "C03": c03, "C04": c04, "C09": c09, "C17": c17}
